@@ -363,6 +363,46 @@ CLAIMED['C06'] = dict(
         design_ref="DESIGN.md 5 C06",
     )
 
+CLAIMED['C07'] = dict(
+        category='partial',
+        technique="Coq proof over a hand-written model (coq/Model/Threads.v) of a process with several threads: the "
+                  "two module-level singletons' thread-local namespaces (created lazily with exactly the attributes "
+                  "the `ns` properties create), per-compiler cell state, one small-step machine per thread whose "
+                  "steps are the entries of ExcelCompiler._evaluate (built on the C06 model's setter/start_calcs/"
+                  "needs_calc/graph construction), schedules = lists of thread ids; systematic schedule enumeration "
+                  "on real threading.Threads with a baton around compiler._evaluate; extracted-model/implementation "
+                  "comparison under the same schedules; AST inventory of module/class-level mutable objects",
+        text="PARTIAL by nature: the model interleaves at _evaluate granularity; it cannot exhibit pre-emption inside "
+             "a C-level operation, the GIL hand-over inside numpy/openpyxl, or state reachable only through objects "
+             "outside the static inventory. Machine-checked (Coq 8.16, 3 theorems in coq/Props/C07.v, all closed "
+             "under the global context), FULL within the model: C07_noninterference (threads with their own "
+             "namespace working on different compilers: for EVERY schedule what thread t observes - result, pass "
+             "count, phase, its tracker namespace and array-context stack, its compiler's cells - equals its solo "
+             "run; frame lemma + determinism of the own step + induction over the schedule; the step function is "
+             "arbitrary in the proof, so every pair of {iterative, array-formula, plain} workloads and every "
+             "(iterations, tolerance) is covered), C07_noninterference_trace (the same after every prefix: the "
+             "whole sequence of observables), C07_fresh (a process none of whose threads used the library: for all "
+             "operations - evaluate, set_value on an iterative compiler, cell construction as in load/trim_graph - "
+             "compiler contents and schedules, no step reads a namespace attribute that does not exist; follows "
+             "the 5-attribute initialiser of fix 4ad9eb7; Example set_value_needed_tolerance shows the "
+             "3-attribute namespace did fail). REFUTED (advisory extra target Refuted/C07_shared.v): "
+             "C07_shared_refuted - with ONE namespace for all threads two iterative evaluations with different "
+             "settings disturb each other (1 pass instead of 12), i.e. the theorem rests on threading.local. "
+             "CORRESPONDENCE: every quick run enumerates ~700 schedules on real threads (workload B runs to "
+             "completion or to its own k-th _evaluate entry inside the j-th entry of workload A; workloads: "
+             "iterative contracting circular systems, plain acyclic workbooks, a CSE array formula; fresh and "
+             "warmed-up threads): result, pass count, number of _evaluate entries, final cells and the context "
+             "stack must equal the solo runs; for iterative x iterative pairs the extracted model is run under the "
+             "same schedule (same result / passes / entries; the shared-namespace variant must differ somewhere); "
+             "load (from_file of an iterative model), set_value, evaluate, trim_graph are run on brand-new "
+             "threads; the AST inventory (30 module/class-level mutable objects) must show exactly the two "
+             "threading.local namespaces with the modelled attributes, the two singletons, and as run-time-mutated "
+             "objects only _Cell.ctr and star_args; any new entry breaks the tie. NOT covered by the model and "
+             "found by the harness: apply_meta's excel_func_meta['name_space'] back-pointer lets CELL/INDEX over "
+             "references read another compiler's cells (finding C07-func-meta-name-space).",
+        design_ref="DESIGN.md 5 C07",
+    )
+
 NOT_YET = "check not built yet in this round (planned: DESIGN.md section 7 lists the build order)"
 
 
